@@ -11,8 +11,11 @@ Valid == CASE Ev.ev = "Init" -> Ev.n = Len(Ev.ys) /\ Ev.gp_n = Len(Ev.ys) /\ Ev.
            [] Ev.ev = "Propose" -> Ev.inside /\ Ev.n = Len(ys) /\ Ev.caller_unchanged            \* every proposal inside the search bounds
            [] Ev.ev = "Add" -> /\ Ev.n = Len(ys) + 1 /\ Ev.gp_n = Len(ys) + 1                     \* the next model is fitted to the data including the new point
                                /\ Ev.last_y = Ev.y /\ Ev.last_x_ok
+                               /\ Ev.errs_aligned                                                 \* data errors stay aligned with their points (old ones, then the new one)
                                /\ Ev.mu_max = MaxOf(Append(ys, Ev.y))                             \* incumbent maximum updated
                                /\ Ev.caller_unchanged                                             \* caller's arrays (values and shapes) untouched
+           \* "Other": ANOTHER optimiser was constructed and used in between -- this one's data, model and incumbent are what they were
+           [] Ev.ev = "Other" -> Ev.n = Len(ys) /\ Ev.gp_n = Len(ys) /\ Ev.mu_max = MaxOf(ys) /\ Ev.own_model
            [] OTHER -> FALSE
 TraceNext == l <= Len(Log) /\ l' = l + 1 /\ (IF Valid THEN TRUE ELSE PrintT(<<"BAD", l>>)) /\ ys' = NewYs
 TraceSpec == TraceInit /\ [][TraceNext]_<<l, ys>>
